@@ -1,118 +1,308 @@
-(* C29 — the statements quoted in Property.v. *)
+(* C29 — the model satisfies the checker; the statements quoted in Property.v. *)
 From Coq Require Import String.
-From Coq Require Import List NArith Bool Arith Lia.
+From Coq Require Import List NArith ZArith Bool Arith Lia.
 Import ListNotations.
 From TV Require Import Lib.Obs C29.Model C29.Run C29.Proofs1 C29.Proofs2 C29.Proofs3 C29.Proofs4.
 Local Open Scope N_scope.
 
+Lemma list_beqb_refl : forall l, list_beqb l l = true.
+Proof.
+  induction l as [|x l IH]; simpl; auto. unfold list_beqb in *. simpl. rewrite beqb_refl, IH. reflexivity.
+Qed.
+Lemma first_chunk_all : forall prog fin, has_flush prog = false ->
+  first_chunk prog fin = writes prog ++ fin_bytes fin.
+Proof. intros prog fin H. unfold first_chunk. rewrite H. reflexivity. Qed.
+Lemma status_ok_bodiless : forall k, status_ok k = negb (bodiless k).
+Proof. intro k. unfold status_ok, bodiless. rewrite <- negb_orb. reflexivity. Qed.
+Lemma expected_not_bodiless : forall ae prog fin ct, expected_gzip ae prog fin ct = true ->
+  bodiless (status_at prog) = false.
+Proof.
+  intros ae prog fin ct H. unfold expected_gzip in H. apply andb_true_iff in H as [_ H].
+  rewrite status_ok_bodiless in H. apply negb_true_iff in H. exact H.
+Qed.
+Lemma is_nil_eq : forall x, is_nil x = true -> x = [].
+Proof. intros [|a x]; simpl; auto; discriminate. Qed.
+
+Lemma check_resp_ok : forall c gunzip, codec_ok c gunzip -> forall head ae cp prog fin,
+  assertion_fails prog fin = false ->
+  exists r, outcome_of (run c {| is_head := head; accept_enc := ae; compress := cp |} prog fin) = Resp r /\
+            check_resp gunzip head cp ae prog fin r = true.
+Proof.
+  intros c gunzip OK head ae cp prog fin NA.
+  pose proof (run_summary_any c head ae cp prog fin) as S. cbv zeta in S. rewrite NA in S.
+  destruct S as [sG [r [ES [R0 [R1 [R3 [R4 [R5 [R6 R7]]]]]]]]].
+  exists r. split. exact R0.
+  unfold check_resp. cbv zeta. rewrite R1. rewrite N.eqb_refl. rewrite andb_true_l.
+  set (hh := eff_hdrs prog) in *.
+  set (D := cp && expected_gzip ae prog fin (hlist K_CT hh)) in *.
+  assert (DB : D = true -> bodiless (status_at prog) = false).
+  { intro HD. unfold D in HD. apply andb_true_iff in HD as [_ HD]. eapply expected_not_bodiless; eauto. }
+  assert (DC : D = true -> hmem K_CE hh = false).
+  { intro HD. unfold D in HD. apply andb_true_iff in HD as [_ HD]. eapply expected_no_ce; eauto. }
+  apply andb_true_iff. split.
+  - (* bodiless status, nothing written: no body byte *)
+    destruct (bodiless (status_at prog)) eqn:EB; auto.
+    destruct (is_nil (writes prog ++ fin_bytes fin)) eqn:EN; auto. simpl andb. cbv iota.
+    destruct head.
+    + rewrite R7. reflexivity.
+    + destruct R7 as [R7 G]. rewrite R7. destruct D eqn:ED.
+      * discriminate (DB eq_refl).
+      * rewrite G. rewrite (is_nil_eq _ EN). reflexivity.
+  - destruct cp.
+    + (* transform configured *)
+      rewrite R3. fold hh. simpl andb in D.
+      assert (GZ : negb (hmem K_CE hh) && list_beqb (r_ce r) [V_GZIP] = D).
+      { rewrite R4. destruct D eqn:ED.
+        - rewrite (DC eq_refl). reflexivity.
+        - destruct (hmem K_CE hh) eqn:E; auto. rewrite (hmem_false_hlist _ _ E). reflexivity. }
+      rewrite GZ.
+      match goal with |- ?a && ?b && ?c && ?d = true =>
+        assert (Ha : a = true); [exact R6|
+        assert (Hb : b = true); [|
+        assert (Hc : c = true); [unfold D; destruct (expected_gzip ae prog fin (hlist K_CT hh)); reflexivity|
+        assert (Hd : d = true); [|rewrite Ha, Hb, Hc, Hd; reflexivity]]]]
+      end.
+      * (* body *)
+        destruct head.
+        -- rewrite R7. reflexivity.
+        -- destruct R7 as [R7 G]. rewrite R7. rewrite R4. destruct D eqn:ED.
+           ++ rewrite (DC eq_refl). destruct G as [hist [G1 G2]]. rewrite G1. rewrite OK. rewrite G2.
+              rewrite !beqb_refl. reflexivity.
+           ++ rewrite G. rewrite beqb_refl. destruct (hmem K_CE hh) eqn:E.
+              ** rewrite list_beqb_refl. reflexivity.
+              ** rewrite (hmem_false_hlist _ _ E). reflexivity.
+      * (* Content-Length *)
+        rewrite R5. destruct D eqn:ED.
+        -- rewrite orb_true_l. destruct (has_flush prog); auto.
+           destruct head; auto. destruct R7 as [R7 _]. rewrite R7. rewrite orb_false_l. apply beqb_refl.
+        -- rewrite orb_false_l. destruct (hmem K_CL hh) eqn:ECL; auto. cbv [negb].
+           unfold final_hdrs. fold hh. rewrite ECL.
+           destruct (has_flush prog) eqn:HF; [rewrite orb_true_l|rewrite orb_false_l].
+           ++ rewrite (hmem_false_hlist _ _ ECL). reflexivity.
+           ++ destruct (bodiless (status_at prog)).
+              ** rewrite (hmem_false_hlist _ _ ECL). reflexivity.
+              ** autorewrite with keys. destruct head; auto. rewrite orb_false_l.
+                 destruct R7 as [R7 G]. rewrite R7, G. rewrite first_chunk_all by exact HF. apply beqb_refl.
+    + (* no transform *)
+      simpl andb in D. unfold D in *. rewrite R3, R4, R5, R6. rewrite fh_ct, fh_ce.
+      rewrite !list_beqb_refl. simpl andb.
+      destruct head.
+      * rewrite R7. reflexivity.
+      * destruct R7 as [R7 G]. rewrite R7, G. apply beqb_refl.
+Qed.
+
+Lemma bytes_list_map : forall l, bytes_list (map OBytes l) = Some l.
+Proof. induction l as [|x l IH]; simpl; auto. rewrite IH. reflexivity. Qed.
+Lemma resp_roundtrip : forall r, resp_of_obs (obs_of (Resp r)) = Some r.
+Proof. intros [k a b' c d s]. simpl. rewrite !bytes_list_map. rewrite N2Z.id. reflexivity. Qed.
+
+Lemma check_any : forall c gunzip, codec_ok c gunzip -> forall (toy_mode : bool) head cp aes prog fin,
+  (forall r, check_resp (if toy_mode then toy_gunzip else sym_gunzip) head cp (ae_of aes) prog fin r
+             = check_resp gunzip head cp (ae_of aes) prog fin r) ->
+  check_case (toy_mode, head, cp, aes, prog, fin)
+    (obs_of (outcome_of (run c {| is_head := head; accept_enc := ae_of aes; compress := cp |} prog fin))) = true.
+Proof.
+  intros c gunzip OK toy_mode head cp aes prog fin EQ. unfold check_case.
+  destruct (assertion_fails prog fin) eqn:NA.
+  - pose proof (run_summary_any c head (ae_of aes) cp prog fin) as S. cbv zeta in S. rewrite NA in S.
+    rewrite S. reflexivity.
+  - destruct (check_resp_ok c gunzip OK head (ae_of aes) cp prog fin NA) as [r [E1 E2]].
+    rewrite E1. rewrite resp_roundtrip. simpl obs_of. rewrite EQ, E2. reflexivity.
+Qed.
+
+Theorem check_case_model : forall i, check_case i (run_case i) = true.
+Proof.
+  intros [[[[[toy_mode head] cp] aes] prog] fin]. unfold run_case, run_outcome.
+  destruct toy_mode.
+  - apply (check_any toy toy_gunzip toy_ok true). reflexivity.
+  - apply (check_any sym sym_gunzip sym_ok false). reflexivity.
+Qed.
+
+(* ---------- statements ---------- *)
 Lemma transparent : forall c gunzip, codec_ok c gunzip -> forall ae prog fin,
-  hmem K_CE (handler_hdrs prog) = false ->
+  assertion_fails prog fin = false ->
+  hmem K_CE (eff_hdrs prog) = false ->
   exists r, outcome_of (run c (GET ae) prog fin) = Resp r /\
             client_decode gunzip r = Some (writes prog ++ fin_bytes fin).
 Proof.
-  intros c gunzip OK ae prog fin NCE.
-  destruct (run_summary_any c false ae prog fin) as [r [R0 [R2 [R3 [R4 [R5 [R6 G]]]]]]].
-  exists r. split. exact R0. unfold client_decode. rewrite R4, R6.
-  destruct (expected_gzip ae prog fin).
+  intros c gunzip OK ae prog fin NA NCE.
+  pose proof (run_summary_any c false ae true prog fin) as S. cbv zeta in S. rewrite NA in S.
+  destruct S as [sG [r [ES [R0 [R1 [R3 [R4 [R5 [R6 [R7 G]]]]]]]]]].
+  exists r. split. exact R0. unfold client_decode. rewrite R4, R7. rewrite andb_true_l in *.
+  destruct (expected_gzip ae prog fin (hlist K_CT (eff_hdrs prog))).
   - rewrite beqb_refl. destruct G as [hist [G1 G2]]. rewrite G1, OK, G2. reflexivity.
   - rewrite (hmem_false_hlist _ _ NCE). rewrite G. reflexivity.
 Qed.
 
 Lemma handler_encoding_untouched : forall c ae prog fin,
-  hmem K_CE (handler_hdrs prog) = true ->
+  assertion_fails prog fin = false ->
+  hmem K_CE (eff_hdrs prog) = true ->
   exists r, outcome_of (run c (GET ae) prog fin) = Resp r /\
             concat (r_sent r) = writes prog ++ fin_bytes fin /\
-            r_ce r = hlist K_CE (handler_hdrs prog).
+            r_ce r = hlist K_CE (eff_hdrs prog).
 Proof.
-  intros c ae prog fin CE.
-  destruct (run_summary_any c false ae prog fin) as [r [R0 [R2 [R3 [R4 [R5 [R6 G]]]]]]].
-  exists r. split. exact R0.
-  destruct (expected_gzip ae prog fin) eqn:ED.
+  intros c ae prog fin NA CE.
+  pose proof (run_summary_any c false ae true prog fin) as S. cbv zeta in S. rewrite NA in S.
+  destruct S as [sG [r [ES [R0 [R1 [R3 [R4 [R5 [R6 [R7 G]]]]]]]]]].
+  exists r. split. exact R0. rewrite andb_true_l in *.
+  destruct (expected_gzip ae prog fin (hlist K_CT (eff_hdrs prog))) eqn:ED.
   - apply expected_no_ce in ED. congruence.
-  - rewrite R6. auto.
+  - rewrite R7. auto.
 Qed.
 
 Lemma compressed_iff : forall c head ae prog fin,
-  exists r, outcome_of (run c {| is_head := head; accept_enc := ae |} prog fin) = Resp r /\
-    r_ct r = hlist K_CT (handler_hdrs prog) /\
-    (hmem K_CE (handler_hdrs prog) = false ->
+  assertion_fails prog fin = false ->
+  exists r, outcome_of (run c {| is_head := head; accept_enc := ae; compress := true |} prog fin) = Resp r /\
+    r_status r = status_at prog /\
+    r_ct r = hlist K_CT (eff_hdrs prog) /\
+    (hmem K_CE (eff_hdrs prog) = false ->
        (r_ce r = [V_GZIP] \/ r_ce r = []) /\
        (r_ce r = [V_GZIP] <->
           mentions_gzip ae = true /\
           compressible (before_semi (join_comma (r_ct r))) = true /\
-          (has_flush prog = true \/ (MIN_LENGTH <= length (first_chunk prog fin))%nat))).
+          (has_flush prog = true \/ (MIN_LENGTH <= length (first_chunk prog fin))%nat) /\
+          bodiless (r_status r) = false)).
 Proof.
-  intros c head ae prog fin.
-  destruct (run_summary_any c head ae prog fin) as [r [R0 [R2 [R3 [R4 [R5 R6]]]]]].
-  exists r. split. exact R0. split. exact R3. intro NCE.
-  rewrite R4, R3. rewrite (hmem_false_hlist _ _ NCE).
-  unfold expected_gzip. rewrite NCE. cbv [negb]. rewrite andb_true_r.
+  intros c head ae prog fin NA.
+  pose proof (run_summary_any c head ae true prog fin) as S. cbv zeta in S. rewrite NA in S.
+  destruct S as [sG [r [ES [R0 [R1 [R3 [R4 [R5 [R6 R7]]]]]]]]].
+  exists r. split. exact R0. split. exact R1. split. exact R3. intro NCE.
+  rewrite R4, R3, R1. rewrite (hmem_false_hlist _ _ NCE). rewrite andb_true_l.
+  unfold expected_gzip. rewrite NCE. cbv [negb]. rewrite andb_true_r. rewrite status_ok_bodiless.
   destruct (mentions_gzip ae); rewrite ?andb_true_l, ?andb_false_l; cbv iota.
   2:{ split; auto. split; intro H; [discriminate|]. destruct H as [H _]; discriminate. }
-  destruct (compressible (before_semi (join_comma (hlist K_CT (handler_hdrs prog))))); rewrite ?andb_true_l, ?andb_false_l; cbv iota.
+  destruct (compressible (before_semi (join_comma (hlist K_CT (eff_hdrs prog))))); rewrite ?andb_true_l, ?andb_false_l; cbv iota.
   2:{ split; auto. split; intro H; [discriminate|]. destruct H as [_ [H _]]; discriminate. }
+  destruct (bodiless (status_at prog)); cbv [negb]; rewrite ?andb_true_r, ?andb_false_r; cbv iota.
+  { split; auto. split; intro H; [discriminate|]. destruct H as [_ [_ [_ H]]]; discriminate. }
   destruct (has_flush prog); rewrite ?orb_true_l, ?orb_false_l; cbv iota.
   { split; auto. split; auto. }
   destruct (MIN_LENGTH <=? length (first_chunk prog fin))%nat eqn:EL; cbv iota.
   - apply Nat.leb_le in EL. split; auto. split; auto.
   - apply Nat.leb_gt in EL. split; auto. split; intro H; [discriminate|].
-    destruct H as [_ [_ [H|H]]]; [discriminate|lia].
+    destruct H as [_ [_ [[H|H] _]]]; [discriminate|lia].
 Qed.
 
 Lemma vary_always : forall c head ae prog fin,
-  exists r, outcome_of (run c {| is_head := head; accept_enc := ae |} prog fin) = Resp r /\
+  assertion_fails prog fin = false ->
+  exists r, outcome_of (run c {| is_head := head; accept_enc := ae; compress := true |} prog fin) = Resp r /\
             vary_mentions_ae (r_vary r) = true.
 Proof.
-  intros c head ae prog fin.
-  destruct (run_summary_any c head ae prog fin) as [r [R0 [R2 _]]].
+  intros c head ae prog fin NA.
+  pose proof (run_summary_any c head ae true prog fin) as S. cbv zeta in S. rewrite NA in S.
+  destruct S as [sG [r [ES [R0 [R1 [R3 [R4 [R5 [R6 R7]]]]]]]]].
   exists r. auto.
 Qed.
 
 Lemma content_length : forall c ae prog fin,
+  assertion_fails prog fin = false ->
   exists r, outcome_of (run c (GET ae) prog fin) = Resp r /\
-    ((r_ce r = [V_GZIP] /\ hmem K_CE (handler_hdrs prog) = false) \/ hmem K_CL (handler_hdrs prog) = false ->
+    ((r_ce r = [V_GZIP] /\ hmem K_CE (eff_hdrs prog) = false) \/ hmem K_CL (eff_hdrs prog) = false ->
        (r_cl r = [] \/ r_cl r = [dec_len (concat (r_sent r))]) /\
        (has_flush prog = true -> r_cl r = [])).
 Proof.
-  intros c ae prog fin.
-  destruct (run_summary_any c false ae prog fin) as [r [R0 [R2 [R3 [R4 [R5 [R6 G]]]]]]].
-  exists r. split. exact R0. intro P.
-  rewrite R5, R6. destruct (expected_gzip ae prog fin) eqn:ED.
+  intros c ae prog fin NA.
+  pose proof (run_summary_any c false ae true prog fin) as S. cbv zeta in S. rewrite NA in S.
+  destruct S as [sG [r [ES [R0 [R1 [R3 [R4 [R5 [R6 [R7 G]]]]]]]]]].
+  exists r. split. exact R0. intro P. rewrite andb_true_l in *.
+  rewrite R5, R7. destruct (expected_gzip ae prog fin (hlist K_CT (eff_hdrs prog))) eqn:ED.
   - destruct (has_flush prog); split; auto. discriminate.
-  - assert (NCL : hmem K_CL (handler_hdrs prog) = false).
+  - assert (NCL : hmem K_CL (eff_hdrs prog) = false).
     { destruct P as [[P1 P2]|P]; auto. rewrite R4 in P1. rewrite (hmem_false_hlist _ _ P2) in P1. discriminate. }
-    unfold hh1. rewrite NCL. destruct (has_flush prog) eqn:HF.
+    unfold final_hdrs. rewrite NCL. destruct (has_flush prog) eqn:HF; [rewrite orb_true_l|rewrite orb_false_l].
     + rewrite (hmem_false_hlist _ _ NCL). split; auto.
-    + autorewrite with keys. rewrite G. rewrite first_chunk_all by exact HF. split; auto. discriminate.
+    + destruct (bodiless (status_at prog)).
+      * rewrite (hmem_false_hlist _ _ NCL). split; auto.
+      * autorewrite with keys. rewrite G. rewrite first_chunk_all by exact HF. split; auto. discriminate.
 Qed.
 
-Lemma head_like_get : forall c ae prog fin,
-  exists rH rG, outcome_of (run c (HEAD ae) prog fin) = Resp rH /\
-                outcome_of (run c (GET ae) prog fin) = Resp rG /\
+Lemma head_like_get : forall c ae cp prog fin,
+  assertion_fails prog fin = false ->
+  exists rH rG, outcome_of (run c (envH ae cp) prog fin) = Resp rH /\
+                outcome_of (run c (envG ae cp) prog fin) = Resp rG /\
+                r_status rH = r_status rG /\
                 r_vary rH = r_vary rG /\ r_ce rH = r_ce rG /\ r_cl rH = r_cl rG /\ r_ct rH = r_ct rG /\
                 concat (r_sent rH) = [].
 Proof.
-  intros c ae prog fin.
-  destruct (run_summary_any c false ae prog fin) as [rG [G0 _]].
-  destruct (sim_run c ae prog fin) as [E1 E2].
-  unfold HEAD, GET, outcome_of in *. rewrite E1. simpl.
-  destruct (err (run c {| is_head := false; accept_enc := ae |} prog fin)); try discriminate.
-  destruct (w_hdrs (run c {| is_head := false; accept_enc := ae |} prog fin)) as [H|]; try discriminate.
+  intros c ae cp prog fin NA.
+  pose proof (run_summary_any c false ae cp prog fin) as S. cbv zeta in S. rewrite NA in S.
+  destruct S as [sG [rG [ES [G0 _]]]]. fold (envG ae cp) in G0.
+  pose proof (sim_run c ae cp prog fin) as SR. rewrite ES in *.
+  destruct (run c (envH ae cp) prog fin) as [sH|]; [|contradiction].
+  destruct SR as [[E1 E2] [S1 S2]].
+  unfold outcome_of in *. rewrite E1. simpl.
+  destruct (err (core sG)); try discriminate.
+  destruct (w_hdrs (core sG)) as [H|]; try discriminate.
   inversion G0; subst rG. eexists. eexists. split. reflexivity. split. reflexivity. simpl. repeat split; auto.
+Qed.
+
+(* bodiless statuses are never encoded, and carry no body byte unless the handler wrote one *)
+Lemma bodiless_never_encoded : forall c head ae cp prog fin,
+  assertion_fails prog fin = false ->
+  exists r, outcome_of (run c {| is_head := head; accept_enc := ae; compress := cp |} prog fin) = Resp r /\
+    r_status r = status_at prog /\
+    (bodiless (r_status r) = true ->
+       r_ce r = hlist K_CE (eff_hdrs prog) /\
+       (writes prog ++ fin_bytes fin = [] -> concat (r_sent r) = [])).
+Proof.
+  intros c head ae cp prog fin NA.
+  pose proof (run_summary_any c head ae cp prog fin) as S. cbv zeta in S. rewrite NA in S.
+  destruct S as [sG [r [ES [R0 [R1 [R3 [R4 [R5 [R6 R7]]]]]]]]].
+  exists r. split. exact R0. split. exact R1. rewrite R1. intro EB.
+  assert (D : cp && expected_gzip ae prog fin (hlist K_CT (eff_hdrs prog)) = false).
+  { destruct cp; auto. rewrite andb_true_l.
+    destruct (expected_gzip ae prog fin (hlist K_CT (eff_hdrs prog))) eqn:ED; auto.
+    apply expected_not_bodiless in ED. congruence. }
+  rewrite D in *. split. exact R4. intro EW.
+  destruct head. exact R7. destruct R7 as [R7 G]. rewrite R7, G. exact EW.
+Qed.
+
+(* without compress_response nothing is touched *)
+Lemma no_transform : forall c ae prog fin,
+  assertion_fails prog fin = false ->
+  exists r, outcome_of (run c (envG ae false) prog fin) = Resp r /\
+    r_vary r = hlist K_VARY (final_hdrs prog fin) /\ r_ce r = hlist K_CE (final_hdrs prog fin) /\
+    r_cl r = hlist K_CL (final_hdrs prog fin) /\ r_ct r = hlist K_CT (final_hdrs prog fin) /\
+    concat (r_sent r) = writes prog ++ fin_bytes fin.
+Proof.
+  intros c ae prog fin NA.
+  pose proof (run_summary_any c false ae false prog fin) as S. cbv zeta in S. rewrite NA in S.
+  destruct S as [sG [r [ES [R0 [R1 [R3 [R4 [R5 [R6 [R7 G]]]]]]]]]].
+  exists r. split. exact R0. simpl andb in *. rewrite fh_ct, fh_ce. rewrite R7. auto.
+Qed.
+
+(* finish()'s assertion: exactly when nothing was flushed, the status is bodiless and write() was called *)
+Lemma assertion_iff : forall c head ae cp prog fin,
+  outcome_of (run c {| is_head := head; accept_enc := ae; compress := cp |} prog fin) = AssertFail
+  <-> assertion_fails prog fin = true.
+Proof.
+  intros c head ae cp prog fin.
+  pose proof (run_summary_any c head ae cp prog fin) as S. cbv zeta in S.
+  destruct (assertion_fails prog fin).
+  - split; auto.
+  - destruct S as [sG [r [ES [R0 _]]]]. rewrite R0. split; discriminate.
 Qed.
 
 (* concrete, non-trivial instances of the hypotheses *)
 Example transparent_example :
   let prog := [SetH (b "content-type") (b "application/json; charset=UTF-8"); Write (b "{""a"":"); Flush; Write (b "1}")] in
-  hmem K_CE (handler_hdrs prog) = false /\
+  assertion_fails prog None = false /\ hmem K_CE (eff_hdrs prog) = false /\
   exists r, outcome_of (run toy (GET (Some (b "deflate, gzip"))) prog None) = Resp r /\
             r_ce r = [V_GZIP] /\ r_cl r = [] /\
             client_decode toy_gunzip r = Some (b "{""a"":1}").
-Proof. vm_compute. split. reflexivity. eexists. repeat split. Qed.
+Proof. vm_compute. split. reflexivity. split. reflexivity. eexists. repeat split. Qed.
 
 Example handler_encoding_example :
   let prog := [SetH (b "Content-Encoding") (b "br"); Write (b "xyz")] in
-  hmem K_CE (handler_hdrs prog) = true /\
+  assertion_fails prog None = false /\ hmem K_CE (eff_hdrs prog) = true /\
   exists r, outcome_of (run toy (GET (Some (b "gzip"))) prog None) = Resp r /\
             r_ce r = [b "br"] /\ concat (r_sent r) = b "xyz" /\ r_cl r = [b "3"].
+Proof. vm_compute. split. reflexivity. split. reflexivity. eexists. repeat split. Qed.
+
+(* the repaired defect (32796e6): set_status(204); flush() with Accept-Encoding: gzip *)
+Example bodiless_flush_example :
+  let prog := [Status 204; Flush] in
+  assertion_fails prog None = false /\
+  exists r, outcome_of (run toy (GET (Some (b "gzip"))) prog None) = Resp r /\
+            r_status r = 204 /\ r_ce r = [] /\ concat (r_sent r) = [] /\ vary_mentions_ae (r_vary r) = true.
 Proof. vm_compute. split. reflexivity. eexists. repeat split. Qed.
